@@ -95,7 +95,7 @@ theorem rerunIn_keeps (e : Nat) (w : Int) : ∀ (t : RState) (st : St), e ∈ ef
     simp only [effsOf] at h
     simp only [rerunIn, effsOf]
     exact ih st h
-  | rows e' sel lists row ks items ih =>
+  | rows e' en sel lists row ks items ih =>
     intro st h
     simp only [effsOf, List.mem_cons] at h
     simp only [rerunIn]
@@ -105,7 +105,7 @@ theorem rerunIn_keeps (e : Nat) (w : Int) : ∀ (t : RState) (st : St), e ∈ ef
       rcases h with h | h
       · exact absurd h.symm he
       · simp only [effsOf, List.mem_cons]; exact Or.inr (ih st h)
-  | rowCons k r rest ihr ihrest =>
+  | rowCons k ix r rest ihr ihrest =>
     intro st h
     simp only [effsOf, List.mem_append] at h
     simp only [rerunIn, effsOf, List.mem_append]
